@@ -85,10 +85,11 @@ CLAIMS = {
  'C16': dict(
     text='Proved for the model: a source and its copy with U+0000-2 replaced by blanks have the same reader, hence the same rendering; no line handed to the renderer '
          'contains a reserved code point; placeholders are restored from the queue in order, each exactly once, a missing entry is an IndexError and the '
-         'restored output contains no placeholder; the split pattern is the tree of \\r\\n|\\r|\\n. Invariance of the regex split under re-encoding of '
-         'terminators is not proved; re-encoded twins (uniform and mixed) are rendered and compared.',
-    note=COMMON_NOTE + 'Partial for the terminator clause (exploration); full for the reserved-character and placeholder clauses.',
-    technique='Lean 4 proof (reader blanking, placeholder queue induction) + re-encoded twin oracle',
+         'restored output contains no placeholder; the split pattern is the tree of \\r\\n|\\r|\\n and on it the model matcher is characterised completely: '
+         'the lines the reader sees are those of the list function splitNl, so re-encoding CR LF and CR as LF gives the same reader and the same rendering for every source '
+         '(line_terminators_are_interchangeable). Re-encoded twins (uniform and mixed) are also rendered and compared on the implementation.',
+    note=COMMON_NOTE + 'Full for the model; that the implementation has no other consumer of raw carriage returns is what the twin oracle explores.',
+    technique='Lean 4 proof (reader blanking, complete characterisation of the line-split matcher, placeholder queue induction) + re-encoded twin oracle',
     ref='7 C16'),
  'C17': dict(
     text='Proved for the model, for every rule and line: when the first rule that matches the line matches it with its leading backslash, no filter runs, no state '
